@@ -101,8 +101,10 @@ PROPS = {
         coq="Properties/C11.v",
         suites=[
             dict(name="chunk", pkg="./client/", test="TestVerifChunk", min_lines=1000),
+            dict(name="queue", pkg="./queue/", test="TestVerifQueue", min_lines=1000,
+                 oracles=["chunk_not_contiguous_with_allocation", "emits_allocated_file"], diffs=["pop-slice", "pop-send"]),
         ],
-        rule=("chunk: exhaustive size 1..24 x chunk 1..9 x payload 10..32 (thorough 40x12x45) for one new file, payload sizes 1..9 sampled, "
+        rule=QUEUE_RULE + (" chunk: exhaustive size 1..24 x chunk 1..9 x payload 10..32 (thorough 40x12x45) for one new file, payload sizes 1..9 sampled, "
               "every sorted disjoint record of <=3 ranges over 0..8 (thorough 0..11) x chunk {1,3,20}, plus seeded random cases of 1..3 files "
               "(new or resumed with shuffled records; exact multiples / one more / one less of chunk and payload; values up to 2^51); "
               "drives the real queue.Tagged, recover(), recoverFile, binnable, startBin, payload.Bin; non-trivial = a file split into several "
@@ -272,17 +274,22 @@ PROPS = {
                 e2e_suite("ooo,faults", ["logged_sent_before_all_bytes_acknowledged", "part_counted_as_held_not_on_record"], n=12),
                 dict(name="track", pkg="./client/", test="TestVerifTrack", min_lines=200,
                      oracles=["logged_sent_before_all_bytes_acknowledged", "polled_before_all_bytes_acknowledged"], diffs=["tracker-logged", "tracker-handed"],
-                     env_quick={"VERIF_N": 300}, env_thorough={"VERIF_N": 10000})],
+                     env_quick={"VERIF_N": 300}, env_thorough={"VERIF_N": 10000}),
+                race_suite(["acknowledged_part_not_on_record", "complete_file_not_delivered"])],
         rule=("send: the real startSend / handleSendError / payload.Bin.Split / Remove against a scripted network: exhaustively every failure position of every "
               "payload of 1..5 parts x {partial-content answer with count k, error without count + recovery request answering k after 0..2 failed recovery "
               "requests}, plus seeded scripts of up to 4 consecutive failures on payloads of 1..7 parts with files changing between attempts; the parts of "
               "every Transmit call and of every group forwarded to the tracker are compared with the model; non-trivial = at least two requests; distinct = "
-              "distinct input lines"),
+              "distinct input lines. track: the REAL Broker.startTrack goroutine is fed generated sequences of forwarded payloads (parts of 1..4 files - some "
+              "resumed, some never completed, some with parts of another version of the name - in any order and grouping); its sent-log calls and hand-overs to "
+              "the poller are compared with Model/Tracker.v. " + E2E_RULE + RACE_RULE),
         level_text=("Proof: for every sequence of failures, reported counts, failed recovery requests and file changes the send loop accounts for every part "
                     "exactly once (forwarded / dropped as changed / still to send) - nothing skipped, abandoned or counted twice; what counts as sent is exactly "
                     "the leading k parts the receiver reported and the next request carries exactly the remainder (theorems over the model of startSend + "
-                    "handleSendError after fix 3574b5d). Tied to the code by exhaustive + seeded differential runs of the real loop. The tracker/poll part of "
-                    "the statement (logged as sent only when every byte is acknowledged) is covered by the end-to-end suite."),
+                    "handleSendError after fix 3574b5d). Tied to the code by exhaustive + seeded differential runs of the real loop. The tracker part of the "
+                    "statement: for every sequence of forwarded payloads a file is written to the sent log / handed to the poller only when the bytes "
+                    "acknowledged for that version add up to its send size, and disjoint ranges adding up to the size cover every byte (Model/Tracker.v, "
+                    "tied to the real startTrack by suite track)."),
         level_note=("Trusted: Coq kernel (no axioms), extraction, harness. Modelled by hand: client.startSend, handleSendError, Bin.Split/Remove, the changed-file "
                     "filter. The network and receiver are an adversarial event list; that the reported count equals what the receiver recorded is the "
                     "receiver's side (C09: Received / 206 count). Several sender threads: each runs this loop on its own payload (no shared state but the channels)."),
@@ -305,7 +312,7 @@ PROPS = {
     ),
     "C07": dict(
         coq="Properties/C07.v",
-        suites=[e2e_suite("crash,crashfail,crashgone", ["resent_bytes_receiver_reported_held", "not_delivered_after_sender_restart", "deleted_without_validated_copy", "source_gone_receiver_lacks_it", "released_without_positive_answer"], n=14),
+        suites=[e2e_suite("crash,crashfail,crashgone", ["sent_log_record_repeated_after_restart", "resent_bytes_receiver_reported_held", "not_delivered_after_sender_restart", "deleted_without_validated_copy", "source_gone_receiver_lacks_it", "released_without_positive_answer"], n=14),
                 dict(name="chunk", pkg="./client/", test="TestVerifChunk", min_lines=1000, oracles=["chunks_not_tiling_missing"], diffs=["left", "left-kind", "chunks"]),
                 CACHE_SUITE],
         rule=E2E_RULE + CACHE_RULE,
@@ -345,8 +352,9 @@ PROPS = {
         suites=[e2e_suite("plain,faults,eligible,pollnone", ["not_delivered_within_bound", "pipeline_never_drains_after_vanished_file", "staging_area_not_empty_at_the_end"], n=12),
                 e2e_suite("mutate,vanish", ["not_delivered_within_bound", "not_confirmed_after_rewrite_in_flight", "pipeline_never_drains_after_vanished_file"], n=8),
                 e2e_suite("crashfail,crash", ["not_delivered_after_sender_restart"], n=6),
-                race_suite(["held_file_never_released_although_predecessor_logged", "complete_file_not_delivered"])],
-        rule=E2E_RULE + RACE_RULE,
+                race_suite(["held_file_never_released_although_predecessor_logged", "complete_file_not_delivered"]),
+                dict(STAGE_SUITE, oracles=["positive_status_without_copy"], diffs=["status"])],
+        rule=E2E_RULE + RACE_RULE + " " + STAGE_RULE,
         level_text=("Partial. Proof: through any failure sequence the send loop loses no part and drains completely once a request succeeds; negative or missing "
                     "poll answers always lead to another attempt. Exploration: fault scripts (all request-failure kinds, corruption, poll failures) followed by "
                     "a failure-free period must end with every eligible file delivered, confirmed, released, the staging area empty and the sender stopped, "
@@ -359,8 +367,9 @@ PROPS = {
         coq="Properties/C16.v",
         suites=[e2e_suite("stop", ["stop_now_did_not_terminate", "stop_now_not_prompt", "graceful_stop_did_not_terminate", "graceful_stop_left_work_undone", "confirmed_left_unrecorded_at_exit"], n=24),
                 e2e_suite("plain,faults,vanish", ["pipeline_never_drains_after_vanished_file"], n=8),
-                e2e_suite("stopfail,stopretry,stopjam", ["graceful_stop_did_not_terminate", "stop_now_did_not_terminate", "stop_now_not_prompt"], n=5)],
-        rule=E2E_RULE,
+                e2e_suite("stopfail,stopretry,stopjam", ["graceful_stop_did_not_terminate", "stop_now_did_not_terminate", "stop_now_not_prompt"], n=5),
+                dict(CACHE_SUITE, oracles=["restart_finds_other_than_persisted"])],
+        rule=E2E_RULE + CACHE_RULE,
         level_text=("Partial. Proof: every poll verdict resolves the file and only confirmed files are recorded done. Exploration: both kinds of stop injected at "
                     "random interface-event indexes (incl. immediately after start = one-shot run), with and without request failures: the sender must exit "
                     "(now: within 4 s; graceful: after delivering and confirming everything found). The shutdown order of the goroutine pipeline is explored, "
@@ -418,7 +427,9 @@ PROPS = {
                      oracles=["refused_request_had_effect", "unauthorised_request_processed"],
                      diffs=["refusal-code", "partials-status"]),
                 dict(race_suite(["ready_before_recovery_finished"]), env_quick={"VERIF_RACE_SWAP": 0, "VERIF_RACE_STORM": 8, "VERIF_RACE_READY": 4},
-                     env_thorough={"VERIF_RACE_SWAP": 0, "VERIF_RACE_STORM": 8, "VERIF_RACE_READY": 40}, min_lines=8)],
+                     env_thorough={"VERIF_RACE_SWAP": 0, "VERIF_RACE_STORM": 8, "VERIF_RACE_READY": 40}, min_lines=8),
+                dict(name="recovery", pkg="./main/", test="TestVerifRecovery", min_lines=4, timeout_quick=300,
+                     oracles=["served_while_recovering", "not_served_after_recovery", "unauthorised_not_refused_after_recovery"], diffs=[])],
         rule=HTTP_RULE,
         level_text=("Proof: the validation decision is exactly: source named and safe, gate keeper ready, source on the list (with the allowed character set) "
                     "when a list is configured, key on the key list when configured; otherwise 400 / 503 / 403 in that order and the wrapped route is not "
